@@ -174,7 +174,10 @@ def main(tier_: str) -> int:
             # ---- ClearKey endpoint ---------------------------------------------------------------
             from dashlive.server import models
             with da.app.app_context():
-                extra = [(bytes(range(16, 32)), bytes(range(32, 48))), (bytes([7] * 16), bytes([9] * 16))]
+                # ids and keys whose base64 text uses each of the two characters that base64url replaces ('+' -> '-', '/' -> '_')
+                extra = [(bytes(range(16, 32)), bytes(range(32, 48))), (bytes([7] * 16), bytes([9] * 16)),
+                         (bytes([0xfb] * 16), bytes([0xff] * 16)), (bytes([0xff] * 15 + [0x01]), bytes([0xfb, 0xef, 0xbe] * 5 + [0x3e])),
+                         (bytes([0x01] * 13 + [0xfb, 0xe0, 0x00]), bytes([0x02] * 13 + [0x03, 0xff, 0xc0]))]
                 for k, v in extra:
                     models.db.session.add(models.Key(hkid=k.hex(), hkey=v.hex(), computed=False))
                 models.db.session.commit()
@@ -185,6 +188,7 @@ def main(tier_: str) -> int:
             known = [bytes(s['kid']) for s in store]
             unknown = [bytes([0x55] * 16), bytes(range(100, 116))]
             reqs = [[known[0]], [unknown[0]], [known[0], known[1]], [known[0], known[0]], [unknown[0], known[2], unknown[1]], [], known + unknown]
+            reqs += [[k] for k in known[-3:]] + [[bytes([0xfb] * 15 + [0xfa])]]
             for _ in range(6 if tier_ == 'quick' else 60):
                 reqs.append([rng.choice(known + unknown) for _ in range(rng.randrange(0, 5))])
             for rq in reqs:
